@@ -25,11 +25,11 @@ namespace GeographicLib {
       throw GeographicErr("Latitude " + Utility::str(lat)
                           + "d not in [-" + to_string(Math::qd)
                           + "d, " + to_string(Math::qd) + "d]");
+    lon = Math::AngNormalize(lon); // first: an infinite longitude becomes NaN here
     if (isnan(lat) || isnan(lon)) {
       georef = "INVALID";
       return;
     }
-    lon = Math::AngNormalize(lon); // lon in [-180,180)
     if (lon == Math::hd) lon = -Math::hd;
     if (lat == Math::qd) lat *= (1 - numeric_limits<real>::epsilon() / 2);
     prec = max(-1, min(int(maxprec_), prec));
